@@ -46,6 +46,7 @@ def scenarios(n_max=3, cores=(1, 2), ncancel=1, time_limits=True, vias=("api",),
         # start failure / log failure / burst after a skipped dependent / pipelined cancel
         for c in (1, 2):
             out.append(dict(cores=c, tasks=[dict(deps=[], codes=(0,)), dict(deps=[0], codes=(0,)), dict(deps=[], codes=(0, 1))], ops=[("enq", 0), ("enq", 1), ("enq", 2)], via="api", start_fail=(0,)))
+            out.append(dict(cores=c, tasks=[dict(deps=[], codes=(0,)), dict(deps=[0], codes=(0,)), dict(deps=[], codes=(0, 1))], ops=[("enq", 0), ("enq", 1), ("enq", 2)], via="api", start_fail=(0,), start_exc="value"))
             out.append(dict(cores=c, tasks=[dict(deps=[], codes=(0,)), dict(deps=[0], codes=(0,))], ops=[("enq", 0), ("enq", 1)], via="api", log_fail=True))
             # the log of one finished task cannot be written while more tasks than cores are ready behind it
             out.append(dict(cores=c, tasks=[dict(deps=[], codes=(0, 1))] + [dict(deps=[], codes=(0,)) for _ in range(c + 1)], ops=[("enq", k) for k in range(c + 2)], via="api", log_fail=(0,)))
